@@ -225,6 +225,20 @@ def part_positions(sh, res):
                 else:
                     res.feat('position_' + label)
                     res.nontrivial += 1
+    # names that look like RBQL's own variables
+    special = ['NR', 'NF', 'NU', 'aNR', 'bNR', 'a1', 'b2', 'count', 'top', 'x']
+    for n1 in special:
+        for n2 in special:
+            if n1 == n2:
+                continue
+            for pos, hdr in ((0, [n1, n2]), (1, [n2, n1])):
+                for label, text, p in queries_for(n1, pos):
+                    got = drive.run_py(text, qcheck.copy_table(ROWS), None, hdr, None)
+                    res.states += 1
+                    res.transitions += 1
+                    if judge(res, label, text, got, p, {'backend': 'table', 'header': hdr, 'query': text}):
+                        res.feat('variable_like_names')
+                        res.nontrivial += 1
     # direct mode: bare names
     idn = ['x', 'Y', '_', 'x7', '_x', 'Yx', 'xx', 'x_7']
     for n1 in idn:
@@ -320,7 +334,8 @@ def part_with(sh, res):
                     return ('ok', f.read(), sorted(warns))
             except Exception as e:
                 return ('error', drive.classify_py(e)[0], str(e))
-        bases = ['select a1, a2, NR', 'select NR, a2 where a1 != "zz"', 'select a1, b2, bNR join t2.csv on a1 == b1', 'select * left join t2.csv on a1 == b1', 'update set a2 = NR',
+        bases = ['select a.name, b.jv join t2.csv on a1 == b1', 'select b["jv"], a["val"] join t2.csv on a.name == b.name', "select b['name'], NR left join t2.csv on a2 == b2",
+                 'select a1, a2, NR', 'select NR, a2 where a1 != "zz"', 'select a1, b2, bNR join t2.csv on a1 == b1', 'select * left join t2.csv on a1 == b1', 'update set a2 = NR',
                  'select a1, b1 join t2.csv on a2 == b2']
         for q in bases:
             for flag in (True, False):
@@ -366,7 +381,7 @@ def main(tier, seed):
         assumptions=['names containing an a.ident / b.ident token are excluded (the quantifier)', 'the name inside a["..."] is written with the canonical escapes (backslash, quote, \\n, \\r, \\t)'],
         extra={'names': len(names), 'backend_pairs': npairs},
         min_features={'table_dq': 50000, 'table_sq': 50000, 'table_attr': 500, 'csv_dq': 300, 'pandas_dq': 300, 'sqlite_dq': 300, 'csv_join': 300, 'direct_mode_bare': 50, 'triples': 100, 'header_not_data': 20,
-                      'with_overrides_opposite_flag': 50, 'position_update': 100})
+                      'with_overrides_opposite_flag': 50, 'variable_like_names': 300, 'position_update': 100})
 
 
 def replay(rep):
